@@ -107,6 +107,13 @@ def gen_case(prop, rng, tier, i):
                 script.append(["line", s, rng.choice(waiters + ["flush -r"]), extra])
             elif r < 0.23:
                 script.append(["blank", s])
+            elif r < 0.29:
+                # a spawning command on a locked pool: refused with an exception whose text is empty — the reply is an empty line
+                st = [x for x in starters if x.split(" ")[0] in ctx["cmds"]]
+                script.append(["line", s, "lock"])
+                if st:
+                    script.append(["line", rng.randrange(nsess), rng.choice(st)])
+                script.append(["line", s, rng.choice(["unlock", "is-locked", "unlock"])])
             else:
                 script.append(["line", s, G.session_line(rng, ctx["cmds"], ctx["flags"], prof)])
         return {"mode": "iso", "cls": cls, "width": rng.choice([20, 80, 120]), "nsess": nsess, "script": script}
